@@ -153,11 +153,19 @@ impl NtpClock for RecClock {
         Ok(())
     }
     fn error_estimate_update(&self, est: NtpDuration, max: NtpDuration) -> Result<(), Self::Error> {
-        self.0.lock().unwrap().log.push(Call::ErrEst(du(est), du(max)));
+        self.0
+            .lock()
+            .unwrap()
+            .log
+            .push(Call::ErrEst(du(est), du(max)));
         Ok(())
     }
     fn status_update(&self, leap: NtpLeapIndicator) -> Result<(), Self::Error> {
-        self.0.lock().unwrap().log.push(Call::Status(leap_code(leap)));
+        self.0
+            .lock()
+            .unwrap()
+            .log
+            .push(Call::Status(leap_code(leap)));
         Ok(())
     }
 }
@@ -169,7 +177,11 @@ impl NtpClock for RecClock {
 #[derive(Clone, Debug, PartialEq)]
 pub(super) enum SrcKind {
     Two,
-    One { noise: f64, accuracy: f64, period: Option<f64> },
+    One {
+        noise: f64,
+        accuracy: f64,
+        period: Option<f64>,
+    },
 }
 
 #[derive(Clone, Debug, PartialEq)]
@@ -211,7 +223,11 @@ impl Default for Cfg {
             sources: vec![
                 SrcKind::Two,
                 SrcKind::Two,
-                SrcKind::One { noise: 1e-6, accuracy: 0.0, period: None },
+                SrcKind::One {
+                    noise: 1e-6,
+                    accuracy: 0.0,
+                    period: None,
+                },
             ],
             leaps: Vec::new(),
         }
@@ -258,7 +274,11 @@ impl Cfg {
             .iter()
             .map(|k| match k {
                 SrcKind::Two => "T".to_string(),
-                SrcKind::One { noise, accuracy, period } => format!(
+                SrcKind::One {
+                    noise,
+                    accuracy,
+                    period,
+                } => format!(
                     "O:{noise:?}:{accuracy:?}:{}",
                     period.map_or("-".to_string(), |p| format!("{p:?}"))
                 ),
@@ -281,7 +301,14 @@ impl Cfg {
             self.max_src_unc,
             src.join("+")
         ) + &if self.leaps.iter().any(|l| *l != 0) {
-            format!(";lp={}", self.leaps.iter().map(|l| l.to_string()).collect::<Vec<_>>().join("+"))
+            format!(
+                ";lp={}",
+                self.leaps
+                    .iter()
+                    .map(|l| l.to_string())
+                    .collect::<Vec<_>>()
+                    .join("+")
+            )
         } else {
             String::new()
         }
@@ -306,7 +333,12 @@ impl Cfg {
                 "sm" => c.slew_max = v.parse().ok()?,
                 "sd" => c.slew_min_dur = v.parse().ok()?,
                 "mu" => c.max_src_unc = v.parse().ok()?,
-                "lp" => c.leaps = v.split('+').map(|t| t.parse().ok()).collect::<Option<Vec<u8>>>()?,
+                "lp" => {
+                    c.leaps = v
+                        .split('+')
+                        .map(|t| t.parse().ok())
+                        .collect::<Option<Vec<u8>>>()?
+                }
                 "src" => {
                     c.sources = v
                         .split('+')
@@ -321,7 +353,11 @@ impl Cfg {
                                 Some(SrcKind::One {
                                     noise: p[1].parse().ok()?,
                                     accuracy: p[2].parse().ok()?,
-                                    period: if p[3] == "-" { None } else { Some(p[3].parse().ok()?) },
+                                    period: if p[3] == "-" {
+                                        None
+                                    } else {
+                                        Some(p[3].parse().ok()?)
+                                    },
                                 })
                             }
                         })
@@ -365,8 +401,13 @@ pub(super) enum Ev {
     Deliver,
     /// the single-shot timer of `run` expires (time first advances to its deadline)
     Tick,
-    Usable { src: u8, on: bool },
-    Remove { src: u8 },
+    Usable {
+        src: u8,
+        on: bool,
+    },
+    Remove {
+        src: u8,
+    },
 }
 
 /// jitter multipliers (offset, delay) of repetition `k` under pattern `pat`
@@ -404,9 +445,23 @@ impl Ev {
             pat: 0,
         }
     }
-    pub(super) fn burst(src: u8, off: i64, delay: i64, dt: i64, reps: u8, wob: i64, dwob: i64) -> Ev {
+    pub(super) fn burst(
+        src: u8,
+        off: i64,
+        delay: i64,
+        dt: i64,
+        reps: u8,
+        wob: i64,
+        dwob: i64,
+    ) -> Ev {
         let mut e = Ev::meas(src, off, delay, dt);
-        if let Ev::Meas { reps: r, wob: w, dwob: d, .. } = &mut e {
+        if let Ev::Meas {
+            reps: r,
+            wob: w,
+            dwob: d,
+            ..
+        } = &mut e
+        {
             *r = reps;
             *w = wob;
             *d = dwob;
@@ -446,7 +501,21 @@ impl Ev {
     }
     pub(super) fn encode(&self) -> String {
         match self {
-            Ev::Meas { src, off, delay, dt, mono_ns, rdelay, rdisp, leap, reps, defer, wob, dwob, pat } => {
+            Ev::Meas {
+                src,
+                off,
+                delay,
+                dt,
+                mono_ns,
+                rdelay,
+                rdisp,
+                leap,
+                reps,
+                defer,
+                wob,
+                dwob,
+                pat,
+            } => {
                 let mut s = format!(
                     "m{src}:{off}:{delay}:{dt}:{mono_ns}:{rdelay}:{rdisp}:{leap}:{reps}:{}:{wob}:{dwob}",
                     *defer as u8
@@ -467,10 +536,15 @@ impl Ev {
         match head {
             "d" => Some(Ev::Deliver),
             "t" => Some(Ev::Tick),
-            "r" => Some(Ev::Remove { src: rest.parse().ok()? }),
+            "r" => Some(Ev::Remove {
+                src: rest.parse().ok()?,
+            }),
             "u" => {
                 let (a, b) = rest.split_once(':')?;
-                Some(Ev::Usable { src: a.parse().ok()?, on: b == "1" })
+                Some(Ev::Usable {
+                    src: a.parse().ok()?,
+                    on: b == "1",
+                })
             }
             "m" => {
                 let p: Vec<&str> = rest.split(':').collect();
@@ -490,7 +564,11 @@ impl Ev {
                     defer: p[9] == "1",
                     wob: p[10].parse().ok()?,
                     dwob: p[11].parse().ok()?,
-                    pat: if p.len() == 13 { p[12].parse().ok()? } else { 0 },
+                    pat: if p.len() == 13 {
+                        p[12].parse().ok()?
+                    } else {
+                        0
+                    },
                 })
             }
             _ => None,
@@ -613,7 +691,11 @@ impl World {
                 let id = ClockId(i as u64 + 1);
                 let src = match k {
                     SrcKind::Two => Src::Two(ctrl.add_source(id, SourceConfig::default())),
-                    SrcKind::One { noise, accuracy, period } => Src::One(ctrl.add_one_way_source(
+                    SrcKind::One {
+                        noise,
+                        accuracy,
+                        period,
+                    } => Src::One(ctrl.add_one_way_source(
                         id,
                         SourceConfig::default(),
                         *noise,
@@ -640,7 +722,10 @@ impl World {
                     leaps: cfg.leaps.clone(),
                 };
             }
-            assert!(tries < 100_000, "harness: could not obtain the demanded HashMap order");
+            assert!(
+                tries < 100_000,
+                "harness: could not obtain the demanded HashMap order"
+            );
         }
     }
 
@@ -704,7 +789,10 @@ impl World {
                     kind,
                     src,
                     calls,
-                    used: u.used_sources.as_ref().map(|v| v.iter().map(|c| c.0).collect()),
+                    used: u
+                        .used_sources
+                        .as_ref()
+                        .map(|v| v.iter().map(|c| c.0).collect()),
                     next_update: u.next_update,
                     snap: u.time_snapshot,
                     steer: u.source_message.as_ref().map(|m| m.ga_fields()),
@@ -724,7 +812,14 @@ impl World {
                 let end = if m.contains("Threshold exceeded") {
                     End::Exit
                 } else {
-                    End::Panic(if kind == 1 { "time_update".into() } else { "source_message".into() }, m)
+                    End::Panic(
+                        if kind == 1 {
+                            "time_update".into()
+                        } else {
+                            "source_message".into()
+                        },
+                        m,
+                    )
                 };
                 tr.upds.push(Upd {
                     kind,
@@ -745,7 +840,9 @@ impl World {
 
     /// one iteration of the `run` loop on the message branch
     fn deliver_one(&mut self, tr: &mut Transition) -> bool {
-        let Some((id, msg)) = self.chan.pop_front() else { return false };
+        let Some((id, msg)) = self.chan.pop_front() else {
+            return false;
+        };
         match msg {
             ChanMsg::Source(m) => {
                 let ctrl = &mut self.ctrl;
@@ -754,12 +851,14 @@ impl World {
             }
             ChanMsg::Usable(on) => {
                 let ctrl = &mut self.ctrl;
-                let r = common::catch(|| ctrl.source_update(id, on)).map(|()| InternalStateUpdate::default());
+                let r = common::catch(|| ctrl.source_update(id, on))
+                    .map(|()| InternalStateUpdate::default());
                 self.handle_update(2, id.0, r, tr);
             }
             ChanMsg::Dropped => {
                 let ctrl = &mut self.ctrl;
-                let r = common::catch(|| ctrl.remove_source(id)).map(|()| InternalStateUpdate::default());
+                let r = common::catch(|| ctrl.remove_source(id))
+                    .map(|()| InternalStateUpdate::default());
                 self.handle_update(3, id.0, r, tr);
             }
         }
@@ -774,8 +873,12 @@ impl World {
         for (i, s) in self.slots.iter().enumerate() {
             let r = match &s.src {
                 None => continue,
-                Some(Src::Two(c)) => common::catch(|| (c.ga_phase(), c.ga_snapshot_f64s(), c.observe())),
-                Some(Src::One(c)) => common::catch(|| (c.ga_phase(), c.ga_snapshot_f64s(), c.observe())),
+                Some(Src::Two(c)) => {
+                    common::catch(|| (c.ga_phase(), c.ga_snapshot_f64s(), c.observe()))
+                }
+                Some(Src::One(c)) => {
+                    common::catch(|| (c.ga_phase(), c.ga_snapshot_f64s(), c.observe()))
+                }
             };
             match r {
                 Ok((phase, snap, o)) => tr.views.push(SrcView {
@@ -807,7 +910,21 @@ impl World {
             return tr;
         }
         match ev {
-            Ev::Meas { src, off, delay, dt, mono_ns, rdelay, rdisp, leap, reps, defer, wob, dwob, pat } => {
+            Ev::Meas {
+                src,
+                off,
+                delay,
+                dt,
+                mono_ns,
+                rdelay,
+                rdisp,
+                leap,
+                reps,
+                defer,
+                wob,
+                dwob,
+                pat,
+            } => {
                 let si = *src as usize;
                 if si >= self.slots.len() || self.slots[si].src.is_none() {
                     tr.enabled = false;
@@ -822,7 +939,11 @@ impl World {
                     let delay_k = delay.saturating_add(dwob.saturating_mul(pd));
                     let localtime = NtpTimestamp::from_fixed_int(self.clock.local_now());
                     // the event's own leap code wins, otherwise the source's configured one
-                    let leap = &(if *leap != 0 { *leap } else { self.leaps.get(si).copied().unwrap_or(0) });
+                    let leap = &(if *leap != 0 {
+                        *leap
+                    } else {
+                        self.leaps.get(si).copied().unwrap_or(0)
+                    });
                     let id = self.slots[si].id;
                     let r = match self.slots[si].src.as_mut().unwrap() {
                         Src::Two(c) => common::catch(|| {
@@ -883,7 +1004,8 @@ impl World {
                 if deadline > now {
                     let d = deadline - now;
                     tokio::time::advance(d).await;
-                    self.clock.advance_local(du(NtpDuration::from_system_duration(d)));
+                    self.clock
+                        .advance_local(du(NtpDuration::from_system_duration(d)));
                 }
                 self.timer = None;
                 self.events_executed += 1;
@@ -899,7 +1021,8 @@ impl World {
                     return tr;
                 }
                 self.events_executed += 1;
-                self.chan.push_back((self.slots[si].id, ChanMsg::Usable(*on)));
+                self.chan
+                    .push_back((self.slots[si].id, ChanMsg::Usable(*on)));
                 self.drain(&mut tr);
             }
             Ev::Remove { src } => {
@@ -1034,7 +1157,13 @@ where
 {
     let mut w = World::new(&spec.cfg);
     let mut m = M::default();
-    let mut out = CandOut { key: 0, enabled: true, terminal: false, nontrivial: false, events: 0 };
+    let mut out = CandOut {
+        key: 0,
+        enabled: true,
+        terminal: false,
+        nontrivial: false,
+        events: 0,
+    };
     let judge_prefix = hist.is_empty();
     for ev in &spec.prefix {
         let tr = w.step(ev).await;
@@ -1096,12 +1225,18 @@ impl SpecOut {
             let n = self.viol_totals.entry(class.clone()).or_insert(0);
             *n += 1;
             if *n <= 2 {
-                self.viols.push((class, what, trace_of(spec, hist), spec.prefix.len() + hist.len()));
+                self.viols.push((
+                    class,
+                    what,
+                    trace_of(spec, hist),
+                    spec.prefix.len() + hist.len(),
+                ));
             }
         }
         if let Some(n) = rep.note {
             if self.samples.len() < 2 {
-                self.samples.push(format!("[{}] {} -> {}", spec.name, trace_of(spec, hist), n));
+                self.samples
+                    .push(format!("[{}] {} -> {}", spec.name, trace_of(spec, hist), n));
             }
         }
     }
@@ -1248,7 +1383,6 @@ where
     complete
 }
 
-
 /// Re-execute one trace without the explorer; every transition is judged and reported.
 pub(super) fn replay_with<M, J>(ctx: &Ctx, trace: &str, judge: &J) -> String
 where
@@ -1294,9 +1428,15 @@ where
                 }
             }
             for v in &tr.views {
-                obs.push_str(&format!("<s{} ph{} {:?} obs={:?}> ", v.slot, v.phase, v.snap, v.obs));
+                obs.push_str(&format!(
+                    "<s{} ph{} {:?} obs={:?}> ",
+                    v.slot, v.phase, v.snap, v.obs
+                ));
             }
-            obs.push_str(&format!("viol={:?}; ", rep.viols.iter().map(|v| v.0.clone()).collect::<Vec<_>>()));
+            obs.push_str(&format!(
+                "viol={:?}; ",
+                rep.viols.iter().map(|v| v.0.clone()).collect::<Vec<_>>()
+            ));
         }
         obs.push_str(&format!("final_key={:032x}", w.key(common::hash_of(&m))));
         obs
@@ -1325,15 +1465,31 @@ pub(super) fn judge01(cfg: &Cfg, m: &mut M01, tr: &Transition, mut rep: Option<&
         let steps: Vec<i64> = u
             .calls
             .iter()
-            .filter_map(|c| if let Call::Step(d) = c { Some(*d) } else { None })
+            .filter_map(|c| {
+                if let Call::Step(d) = c {
+                    Some(*d)
+                } else {
+                    None
+                }
+            })
             .collect();
         match &u.end {
             End::Exit => {
                 if let Some(r) = rep.as_deref_mut() {
-                    r.inc(if m.synced { "exits_after_sync" } else { "exits_during_startup" });
-                    r.note = Some(format!("daemon exits ({})", if m.synced { "synchronised" } else { "startup" }));
+                    r.inc(if m.synced {
+                        "exits_after_sync"
+                    } else {
+                        "exits_during_startup"
+                    });
+                    r.note = Some(format!(
+                        "daemon exits ({})",
+                        if m.synced { "synchronised" } else { "startup" }
+                    ));
                     if !steps.is_empty() {
-                        r.viol("C01:stepped-then-exited", format!("update stepped by {steps:?} units and then exited"));
+                        r.viol(
+                            "C01:stepped-then-exited",
+                            format!("update stepped by {steps:?} units and then exited"),
+                        );
                     }
                 }
             }
@@ -1362,7 +1518,11 @@ pub(super) fn judge01(cfg: &Cfg, m: &mut M01, tr: &Transition, mut rep: Option<&
                 m.acc += mag;
                 if let Some(r) = rep.as_deref_mut() {
                     r.inc("steps_after_sync");
-                    r.note = Some(format!("post-sync step {:.6} s, accumulated {:.3} s", secs(d), m.acc as f64 / 4294967296.0));
+                    r.note = Some(format!(
+                        "post-sync step {:.6} s, accumulated {:.3} s",
+                        secs(d),
+                        m.acc as f64 / 4294967296.0
+                    ));
                     if outside(cfg.single, d) {
                         r.viol(
                             "C01:step-outside-single-threshold",
@@ -1396,7 +1556,11 @@ pub(super) fn judge01(cfg: &Cfg, m: &mut M01, tr: &Transition, mut rep: Option<&
         if u.end == End::Ok {
             if let Some(r) = rep.as_deref_mut() {
                 match u.kind {
-                    0 => r.inc(if u.used.is_some() { "updates_with_consensus" } else { "updates_without_consensus" }),
+                    0 => r.inc(if u.used.is_some() {
+                        "updates_with_consensus"
+                    } else {
+                        "updates_without_consensus"
+                    }),
                     1 => r.inc("slew_ends"),
                     _ => {}
                 }
@@ -1568,7 +1732,11 @@ pub(super) fn periodic_sources() -> Vec<SrcKind> {
     vec![
         SrcKind::Two,
         SrcKind::Two,
-        SrcKind::One { noise: 1e-6, accuracy: 0.0, period: Some(1.0) },
+        SrcKind::One {
+            noise: 1e-6,
+            accuracy: 0.0,
+            period: Some(1.0),
+        },
     ]
 }
 
@@ -1601,7 +1769,10 @@ fn configs01(quick: bool) -> Vec<Cfg> {
         (inf, inf),
         (inf, sym(1800)),
         (sym(1000), sym(1000)),
-        ((Some(500 * S), Some(2000 * S)), (Some(2000 * S), Some(500 * S))),
+        (
+            (Some(500 * S), Some(2000 * S)),
+            (Some(2000 * S), Some(500 * S)),
+        ),
         (sym(0), sym(0)),
         ((None, Some(1800 * S)), sym(1000)), // shipped defaults
         (sym(1800), (Some(1000 * S), None)), // backward single steps unlimited
@@ -1675,8 +1846,22 @@ fn check() {
     ctx.assume("under cfg(test) the threshold check panics with 'Threshold exceeded' where the shipped binary calls std::process::exit(SOFTWARE); that panic is treated as the exit");
     ctx.assume("HashMap iteration order of the controller's source table is forced (by re-creating the controller) to ascending or descending id, both are explored");
     ctx.assume("a step of exactly the threshold value is accepted by the oracle either way (the statement does not fix the boundary)");
-    ctx.note("alphabet_full", &full.iter().map(|e| e.encode()).collect::<Vec<_>>().join(" "));
-    ctx.note("alphabet_core", &core.iter().map(|e| e.encode()).collect::<Vec<_>>().join(" "));
+    ctx.note(
+        "alphabet_full",
+        &full
+            .iter()
+            .map(|e| e.encode())
+            .collect::<Vec<_>>()
+            .join(" "),
+    );
+    ctx.note(
+        "alphabet_core",
+        &core
+            .iter()
+            .map(|e| e.encode())
+            .collect::<Vec<_>>()
+            .join(" "),
+    );
     // how the extreme one-way offsets of the alphabet arise from real timestamp arithmetic
     // (evaluated with the crate's own operators, recorded for the reader)
     {
@@ -1701,7 +1886,11 @@ fn check() {
     for (ci, cfg) in cfgs.iter().enumerate() {
         // thorough: the second variant of every (window, accumulated) pair gets the full alphabet
         // one level shallower (keeps the tier within ~15 min on a shared machine)
-        let d_full = if !quick && ci % 2 == 1 { d_full - 1 } else { d_full };
+        let d_full = if !quick && ci % 2 == 1 {
+            d_full - 1
+        } else {
+            d_full
+        };
         for (name, prefix) in starts01(cfg) {
             for (alpha, depth, tag) in [(&full, d_full, "full"), (&core, d_core, "core")] {
                 specs.push(Spec {
@@ -1721,7 +1910,10 @@ fn check() {
     // constellations, the start states being built with the same leap codes.
     let mut leap_specs = 0u64;
     for cfg in &cfgs {
-        let unknown = Cfg { leaps: vec![3, 3, 3], ..cfg.clone() };
+        let unknown = Cfg {
+            leaps: vec![3, 3, 3],
+            ..cfg.clone()
+        };
         for (name, prefix) in starts01(&unknown) {
             for (alpha, depth, tag) in [(&full, dl_full, "full"), (&core, dl_core, "core")] {
                 specs.push(Spec {
@@ -1740,7 +1932,10 @@ fn check() {
         // it arises in practice: both sources finish their initialisation before they are
         // announced usable; the first consensus then contains both (tie, no majority). Dropping
         // or disabling one of them afterwards lets the other one steer alone.
-        let tie = Cfg { leaps: vec![1, 2, 3], ..cfg.clone() };
+        let tie = Cfg {
+            leaps: vec![1, 2, 3],
+            ..cfg.clone()
+        };
         let tie_synced = vec![
             Ev::Usable { src: G, on: true },
             init_burst(A),
@@ -1770,16 +1965,27 @@ fn check() {
     let periodic = alphabet01_periodic();
     let mut picked: Vec<&Cfg> = Vec::new();
     for want in [
-        ((None, None), (None, None), Some(100 * S)),                                            // unlimited windows, accumulated 100 s
-        ((None, Some(1800 * S)), (Some(1000 * S), Some(1000 * S)), None),                       // shipped defaults
-        ((Some(500 * S), Some(2000 * S)), (Some(2000 * S), Some(500 * S)), Some(1800 * S)),     // asymmetric
+        ((None, None), (None, None), Some(100 * S)), // unlimited windows, accumulated 100 s
+        (
+            (None, Some(1800 * S)),
+            (Some(1000 * S), Some(1000 * S)),
+            None,
+        ), // shipped defaults
+        (
+            (Some(500 * S), Some(2000 * S)),
+            (Some(2000 * S), Some(500 * S)),
+            Some(1800 * S),
+        ), // asymmetric
     ] {
         if let Some(c) = cfgs.iter().find(|c| (c.startup, c.single, c.acc) == want) {
             picked.push(c);
         }
     }
     for cfg in picked {
-        let cfg = Cfg { sources: periodic_sources(), ..cfg.clone() };
+        let cfg = Cfg {
+            sources: periodic_sources(),
+            ..cfg.clone()
+        };
         for (name, prefix) in starts01(&cfg).into_iter().take(2) {
             specs.push(Spec {
                 rank: 0,
@@ -1791,7 +1997,14 @@ fn check() {
             });
         }
     }
-    ctx.note("alphabet_periodic", &periodic.iter().map(|e| e.encode()).collect::<Vec<_>>().join(" "));
+    ctx.note(
+        "alphabet_periodic",
+        &periodic
+            .iter()
+            .map(|e| e.encode())
+            .collect::<Vec<_>>()
+            .join(" "),
+    );
     ctx.set("explorations", specs.len() as u64);
     let complete = run_specs::<M01, _>(&ctx, &specs, &judge01);
     ctx.exhaustive(complete);
